@@ -59,9 +59,10 @@ LATE = "late-mutation-of-call-argument"
 REBOUND = "same-named-globals-rebound"
 
 
-def _dealias(data):
-    """If GLOBAL / INST opcodes of the program resolve the same attribute name from different modules, return the program
-    with those names made unique (X -> X__from_1, ...); else None."""
+def _dealias(data, v_seq=None):
+    """If the program resolves the same attribute name from different modules, return the program with those names made
+    unique for the non-builtin modules (X -> X__from_1, ...); else None.  v_seq: the VM's (module, name) resolutions, which
+    also cover STACK_GLOBAL; GLOBAL / INST arguments and the SHORT_BINUNICODE name operand of STACK_GLOBAL are rewritten."""
     import pickletools
 
     try:
@@ -69,17 +70,36 @@ def _dealias(data):
     except Exception:  # noqa: BLE001
         return None
     mods = {}
+    pairs = list(v_seq or [])
     for info, arg, _pos in ops:
         if info.name in ("GLOBAL", "INST") and isinstance(arg, str) and " " in arg:
-            m, n = arg.split(" ", 1)
-            if m in BUILTIN_FAMILY:
-                m = "builtins"
-            mods.setdefault(n, [])
-            if m not in mods[n]:
-                mods[n].append(m)
+            pairs.append(tuple(arg.split(" ", 1)))
+    for m, n in pairs:
+        m = "builtins" if m in BUILTIN_FAMILY else m
+        mods.setdefault(n, [])
+        if m not in mods[n]:
+            mods[n].append(m)
     clash = {n: ms for n, ms in mods.items() if len(ms) > 1}
     if not clash:
         return None
+    # operands of STACK_GLOBAL: the two most recent string pushes before it (memo traffic in between is skipped)
+    sg_name_at = {}
+    for i, (info, arg, pos) in enumerate(ops):
+        if info.name == "STACK_GLOBAL":
+            strs = []
+            k = i - 1
+            while k >= 0 and len(strs) < 2:
+                nm = ops[k][0].name
+                if nm in ("MEMOIZE", "BINPUT", "LONG_BINPUT", "PUT"):
+                    k -= 1
+                    continue
+                if nm == "SHORT_BINUNICODE":
+                    strs.append(k)
+                    k -= 1
+                    continue
+                break
+            if len(strs) == 2:
+                sg_name_at[strs[0]] = ops[strs[1]][1]  # index of the name push -> module string
     out = bytearray()
     for i, (info, arg, pos) in enumerate(ops):
         end = ops[i + 1][2] if i + 1 < len(ops) else len(data)
@@ -90,6 +110,14 @@ def _dealias(data):
                 n2 = f"{n}__from_{clash[n].index(mk)}"
                 out += data[pos:pos + 1] + m.encode() + b"\n" + n2.encode() + b"\n"
                 continue
+        if i in sg_name_at and isinstance(arg, str) and arg in clash:
+            m = sg_name_at[i]
+            mk = "builtins" if m in BUILTIN_FAMILY else m
+            if mk != "builtins" and mk in clash[arg]:
+                n2 = f"{arg}__from_{clash[arg].index(mk)}".encode()
+                if len(n2) < 256:
+                    out += b"\x8c" + bytes([len(n2)]) + n2
+                    continue
         out += data[pos:end]
     return bytes(out)
 
@@ -97,8 +125,9 @@ def _dealias(data):
 def _rebound_only(term, oracle):
     """True iff the program resolves same-named globals of different modules and the oracle is satisfied once those names
     are made unique: the mismatch is then the known conflation of bare names in the decompiled program, nothing else."""
-    data2 = _dealias(term.data)
-    if data2 is None:
+    okv0, vm0 = term.vm
+    data2 = _dealias(term.data, [(ev[1], ev[2]) for ev in vm0.world.log if ev[0] == "import"] if okv0 else None)
+    if data2 is None or data2 == term.data:
         return False
     from . import e1
 
